@@ -37,6 +37,8 @@
 (***************************************************************************)
 EXTENDS Rat, FiniteSets, TLC
 
+\* TLC re-evaluates a LET definition at every use but evaluates an operator ARGUMENT once; values that are
+\* used several times are therefore passed as arguments of a local operator (LET F(v) == .. IN F(expr)).
 Range(s) == {s[i] : i \in DOMAIN s}
 RECURSIVE Flat(_)
 Flat(ss) == IF ss = <<>> THEN <<>> ELSE Head(ss) \o Flat(Tail(ss))
@@ -69,7 +71,7 @@ NfSetting(par) == [val  |-> IF par.inits = <<>> THEN ROne ELSE par.inits[1],
 
 -----------------------------------------------------------------------------
 (* The exportable fragment: what HistFactory XML (as pyhf writes it) can express.          *)
-Exportable(w) ==
+ExportableWith(w, pn, nfn, haslumi) ==
   \* one staterror parameter per channel (the format has no name for it), never shared between channels
   /\ \A c \in DOMAIN w.channels :
        LET st == {m \in UNION {Range(w.channels[c].samples[s].mods) : s \in DOMAIN w.channels[c].samples} : m.type = "staterror"}
@@ -84,16 +86,18 @@ Exportable(w) ==
   /\ \A i \in DOMAIN w.meas :
        LET ms == w.meas[i] IN
        \* NormFactor Val/Low/High live in the channel files: one setting for all measurements
-       /\ \A n \in NormFactorNames(w) : NfSetting(ParOf(ms, n)) = NfSetting(ParOf(w.meas[1], n))
+       /\ \A n \in nfn : NfSetting(ParOf(ms, n)) = NfSetting(ParOf(w.meas[1], n))
        \* luminosity settings iff a lumi modifier; the format has one number for auxdata and inits
-       /\ HasPar(ms, "lumi") = HasLumiMod(w)
+       /\ HasPar(ms, "lumi") = haslumi
        /\ HasPar(ms, "lumi") => LET lp == ParOf(ms, "lumi") IN lp.inits = lp.auxdata /\ lp.auxdata # <<>> /\ lp.sigmas # <<>> /\ lp.auxdata[1] # RZero
        /\ \A j \in DOMAIN ms.pars :
             LET p == ms.pars[j] IN
-            /\ p.name \in ParamNames(w)
+            /\ p.name \in pn
             \* only scalar parameters can be held constant; only normfactor (and lumi) carry other settings
             /\ p.fixed => \A t \in TypesOf(w, p.name) : ~BinWise(t)
-            /\ (p.name # "lumi" /\ TypesOf(w, p.name) # {"normfactor"}) => p.inits = <<>> /\ p.bounds = <<>> /\ p.auxdata = <<>> /\ p.sigmas = <<>>
+            /\ (p.name # "lumi" /\ p.name \notin nfn) => p.inits = <<>> /\ p.bounds = <<>> /\ p.auxdata = <<>> /\ p.sigmas = <<>>
+            /\ p.name \in nfn => TypesOf(w, p.name) = {"normfactor"}
+Exportable(w) == ExportableWith(w, ParamNames(w), NormFactorNames(w), HasLumiMod(w))
 
 -----------------------------------------------------------------------------
 (* Definition layer (DESIGN A.9)                                                            *)
@@ -177,22 +181,22 @@ LumiPar(L, sg, fixed) ==
   [name |-> "lumi", inits |-> <<L>>, auxdata |-> <<L>>, sigmas |-> <<sg>>, fixed |-> fixed,
    bounds |-> << <<RSub(L, RMul(R(5), sg)), RAdd(L, RMul(R(5), sg))>> >>]
 
-DefImportMeas(x, xm) ==
-  LET U == ElementNames(x)
-      cn == [i \in DOMAIN xm.const |-> Interpret(xm.const[i], U)]
-      cset == {cn[i].name : i \in DOMAIN cn}
-      nf == NfConfigs(x)
-      nfn == {nf[i].name : i \in DOMAIN nf}
-      others == SelectSeq(cn, LAMBDA c : c.name # "lumi" /\ c.name \notin nfn)
-  IN [name |-> xm.name, poi |-> xm.poi,
-      pars |-> <<LumiPar(xm.lumi, RMul(xm.lumi, xm.relerr), "lumi" \in cset)>>        \* sigma = Lumi * LumiRelErr
-               \o [i \in DOMAIN nf |-> [nf[i] EXCEPT !.fixed = nf[i].name \in cset]]
-               \o [i \in DOMAIN others |-> [NoPar EXCEPT !.name = others[i].name, !.fixed = TRUE]]]
+DefImportMeas(xm, U, nf) ==
+  LET G(cn, nfn) ==
+        LET cset == {cn[i].name : i \in DOMAIN cn}
+            others == SelectSeq(cn, LAMBDA c : c.name # "lumi" /\ c.name \notin nfn)
+        IN [name |-> xm.name, poi |-> xm.poi,
+            pars |-> <<LumiPar(xm.lumi, RMul(xm.lumi, xm.relerr), "lumi" \in cset)>>        \* sigma = Lumi * LumiRelErr
+                     \o [i \in DOMAIN nf |-> [nf[i] EXCEPT !.fixed = nf[i].name \in cset]]
+                     \o [i \in DOMAIN others |-> [NoPar EXCEPT !.name = others[i].name, !.fixed = TRUE]]]
+  IN G([i \in DOMAIN xm.const |-> Interpret(xm.const[i], U)], {nf[i].name : i \in DOMAIN nf})
 
 \* a Const entry that names a bin-wise ("gamma") parameter cannot be imported (pyhf refuses)
 ImportRefuses(x) == \E i \in DOMAIN x.meas : \E j \in DOMAIN x.meas[i].const : ~Interpret(x.meas[i].const[j], ElementNames(x)).scalar
 
-DefImport(x) == [channels |-> ImportChannels(x), meas |-> [i \in DOMAIN x.meas |-> DefImportMeas(x, x.meas[i])]]
+DefImport(x) ==
+  LET G(U, nf) == [channels |-> ImportChannels(x), meas |-> [i \in DOMAIN x.meas |-> DefImportMeas(x.meas[i], U, nf)]]
+  IN G(ElementNames(x), NfConfigs(x))
 
 -----------------------------------------------------------------------------
 (* Implementation-shaped layer                                                              *)
@@ -241,10 +245,10 @@ ImplBuildMeasurement(w, ms, lumiAbs) ==
                         ELSE st
                  st2 == IF p.name = "lumi" THEN [st1 EXCEPT !.lumi = p.auxdata[1], !.lumierr = p.sigmas[1]] ELSE st1
              IN Loop(i + 1, st2)
-      fin == Loop(1, [fixed |-> <<>>, lumi |-> ROne, lumierr |-> RZero])
-  IN [name |-> ms.name, poi |-> ms.poi, lumi |-> fin.lumi,
-      relerr |-> IF lumiAbs THEN fin.lumierr ELSE RDiv(fin.lumierr, fin.lumi),     \* LumiRelErr=str(lumierr)
-      const |-> fin.fixed]
+      Fin(fin) == [name |-> ms.name, poi |-> ms.poi, lumi |-> fin.lumi,
+                   relerr |-> IF lumiAbs THEN fin.lumierr ELSE RDiv(fin.lumierr, fin.lumi),     \* LumiRelErr=str(lumierr)
+                   const |-> fin.fixed]
+  IN Fin(Loop(1, [fixed |-> <<>>, lumi |-> ROne, lumierr |-> RZero]))
 
 ImplExport(w, lumiAbs) ==
   [channels |-> [c \in DOMAIN w.channels |->
@@ -254,21 +258,23 @@ ImplExport(w, lumiAbs) ==
 
 \* readxml.process_measurements: the ordered dict of the other parameter configurations is
 \* popped and re-inserted (at the end) for every Const name
-ImplProcessMeasurement(x, xm) ==
-  LET U == ElementNames(x)
-      lumierr == RMul(xm.lumi, xm.relerr)                                       \* lumierr = lumi * float(LumiRelErr)
+ImplProcessMeasurement(xm, U, nf) ==
+  LET lumierr == RMul(xm.lumi, xm.relerr)                                       \* lumierr = lumi * float(LumiRelErr)
       RECURSIVE Loop(_, _, _)
       Loop(i, lfix, map) ==
         IF i > Len(xm.const) THEN [lfix |-> lfix, map |-> map]
-        ELSE LET it == Interpret(xm.const[i], U) IN
-             IF it.name = "lumi" THEN Loop(i + 1, TRUE, map)
-             ELSE LET old == SelectSeq(map, LAMBDA p : p.name = it.name)
-                      obj == IF old = <<>> THEN [NoPar EXCEPT !.name = it.name] ELSE old[1]
-                  IN Loop(i + 1, lfix, Append(SelectSeq(map, LAMBDA p : p.name # it.name), [obj EXCEPT !.fixed = TRUE]))
-      fin == Loop(1, FALSE, NfConfigs(x))
-  IN [name |-> xm.name, poi |-> xm.poi, pars |-> <<LumiPar(xm.lumi, lumierr, fin.lfix)>> \o fin.map]
+        ELSE LET Step(it) ==
+                   IF it.name = "lumi" THEN Loop(i + 1, TRUE, map)
+                   ELSE LET old == SelectSeq(map, LAMBDA p : p.name = it.name)
+                            obj == IF old = <<>> THEN [NoPar EXCEPT !.name = it.name] ELSE old[1]
+                        IN Loop(i + 1, lfix, Append(SelectSeq(map, LAMBDA p : p.name # it.name), [obj EXCEPT !.fixed = TRUE]))
+             IN Step(Interpret(xm.const[i], U))
+      Fin(fin) == [name |-> xm.name, poi |-> xm.poi, pars |-> <<LumiPar(xm.lumi, lumierr, fin.lfix)>> \o fin.map]
+  IN Fin(Loop(1, FALSE, nf))
 
-ImplImport(x) == [channels |-> ImportChannels(x), meas |-> [i \in DOMAIN x.meas |-> ImplProcessMeasurement(x, x.meas[i])]]
+ImplImport(x) ==
+  LET G(U, nf) == [channels |-> ImportChannels(x), meas |-> [i \in DOMAIN x.meas |-> ImplProcessMeasurement(x.meas[i], U, nf)]]
+  IN G(ElementNames(x), NfConfigs(x))
 
 -----------------------------------------------------------------------------
 (* Likelihood terms modulo the names the format dictates                                    *)
@@ -291,15 +297,16 @@ ConstraintTerms(w) ==
      : m \in {mm \in AllMods(w) : mm.type \in {"histosys", "normsys"}}}
   \cup
   \* staterror: Normal(1 | gamma_b, delta_b), delta_b = sqrt(sum abs^2) / sum nom over the samples carrying it
-  UNION {LET carriers == {sm \in Range(w.channels[c].samples) : \E m \in Range(sm.mods) : m.type = "staterror"}
-             ab(sm, b) == LET m == CHOOSE mm \in Range(sm.mods) : mm.type = "staterror" IN m.d1[b]
+  UNION {LET ab(sm, b) == LET m == CHOOSE mm \in Range(sm.mods) : mm.type = "staterror" IN m.d1[b]
              RECURSIVE SumSq(_, _)
              SumSq(S, b) == IF S = {} THEN RZero ELSE LET sm == CHOOSE z \in S : TRUE IN RAdd(RMul(ab(sm, b), ab(sm, b)), SumSq(S \ {sm}, b))
              RECURSIVE SumNom(_, _)
              SumNom(S, b) == IF S = {} THEN RZero ELSE LET sm == CHOOSE z \in S : TRUE IN RAdd(sm.data[b], SumNom(S \ {sm}, b))
-         IN IF carriers = {} THEN {}
-            ELSE {[kind |-> "normal(1|gamma,delta)", p |-> "staterror_" \o w.channels[c].name, bin |-> b,
-                   x |-> SumSq(carriers, b), y |-> SumNom(carriers, b)] : b \in DOMAIN w.channels[c].obs}
+             G(carriers) ==
+               IF carriers = {} THEN {}
+               ELSE {[kind |-> "normal(1|gamma,delta)", p |-> "staterror_" \o w.channels[c].name, bin |-> b,
+                      x |-> SumSq(carriers, b), y |-> SumNom(carriers, b)] : b \in DOMAIN w.channels[c].obs}
+         IN G({sm \in Range(w.channels[c].samples) : \E m \in Range(sm.mods) : m.type = "staterror"})
         : c \in DOMAIN w.channels}
   \cup
   \* shapesys: Poisson(tau_b | gamma_b tau_b), tau_b = (nom/abs)^2
@@ -310,13 +317,14 @@ ConstraintTerms(w) ==
                 : s \in DOMAIN w.channels[c].samples} : c \in DOMAIN w.channels}
 
 \* per measurement: POI, constant flags, luminosity constraint Normal(aux | lumi, sigma), normfactor settings
-MeasTerms(w) ==
+MeasTermsWith(w, pn, nfn, haslumi) ==
   {LET ms == w.meas[i] IN
    [name |-> ms.name, poi |-> ms.poi,
-    const |-> {p.name : p \in {q \in Range(ms.pars) : q.fixed /\ q.name \in ParamNames(w)}},
-    lumi |-> IF HasLumiMod(w) THEN LET lp == ParOf(ms, "lumi") IN <<lp.auxdata[1], lp.sigmas[1], lp.inits[1]>> ELSE <<>>,
-    nf |-> {[p |-> n, st |-> NfSetting(ParOf(ms, n))] : n \in NormFactorNames(w)}]
+    const |-> {p.name : p \in {q \in Range(ms.pars) : q.fixed /\ q.name \in pn}},
+    lumi |-> IF haslumi THEN LET lp == ParOf(ms, "lumi") IN <<lp.auxdata[1], lp.sigmas[1], lp.inits[1]>> ELSE <<>>,
+    nf |-> {[p |-> n, st |-> NfSetting(ParOf(ms, n))] : n \in nfn}]
    : i \in DOMAIN w.meas}
+MeasTerms(w) == MeasTermsWith(w, ParamNames(w), NormFactorNames(w), HasLumiMod(w))
 
 Terms(w) == [main |-> MainTerms(w), constraints |-> ConstraintTerms(w), meas |-> MeasTerms(w)]
 
